@@ -125,6 +125,30 @@ Definition research (q : query_fn) (root : obj) : res (list (path * oref)) :=
   | OutOfFuel => Raise (OtherExn 2)
   end.
 
+(* the same with a query that may raise (None) and research's `reraise` flag:
+   the exception leaves research at that enter call, or the entry is skipped *)
+Definition mquery_fn := path -> key -> sview -> option bool.
+Definition QueryError : exn := OtherExn 8.
+
+Fixpoint reported_x (q : mquery_fn) (reraise : bool) (lg : list event) : res (list (path * oref)) :=
+  match lg with
+  | [] => Ok []
+  | EEnter p k r s :: rest =>
+      match q p k s with
+      | Some true => match reported_x q reraise rest with Ok l => Ok ((p ++ [k], r) :: l) | Raise e => Raise e end
+      | Some false => reported_x q reraise rest
+      | None => if reraise then Raise QueryError else reported_x q reraise rest
+      end
+  | _ :: rest => reported_x q reraise rest
+  end.
+
+Definition research_x (q : mquery_fn) (reraise : bool) (root : obj) : res (list (path * oref)) :=
+  match remap None true (collect_defs root) root with
+  | Done _ _ lg => reported_x q reraise lg
+  | Fail e lg => match reported_x q reraise lg with Ok _ => Raise e | Raise e' => Raise e' end
+  | OutOfFuel => Raise (OtherExn 2)
+  end.
+
 (* get_path(root, path): the loop `for seg in path: cur = cur[seg]`; every
    failure is re-raised as PathAccessError (KeyError here) *)
 Definition getitem (defs : table obj) (cur : obj) (seg : key) : res obj :=
